@@ -457,6 +457,24 @@ Section Data.
   Qed.
 End Data.
 
+(* ---------- the same for registries built from declarations (the form cited by Props/C14.v) ---------- *)
+Lemma tfs_total_l : forall table fwd bwd ds hub r a b c x,
+  build ds = Some r -> a <> b -> get_chain hub r a b = Some c ->
+  exists y, tfs_transform table fwd bwd hub r a b x = TOk table y.
+Proof. intros table fwd bwd ds hub r a b c x B. apply tfs_total_inv. exact (build_inv ds r B). Qed.
+
+Lemma roundtrip_under_bijection_l : forall table fwd bwd valid ds hub r a b x y,
+  build ds = Some r -> bijective_registry table fwd bwd valid r -> a <> b -> valid a x ->
+  tfs_transform table fwd bwd hub r a b x = TOk table y ->
+  valid b y /\ tfs_transform table fwd bwd hub r b a y = TOk table x.
+Proof. intros table fwd bwd valid ds hub r a b x y B. apply roundtrip_inv. exact (build_inv ds r B). Qed.
+
+Lemma direct_roundtrip_l : forall table fwd bwd valid ds r a b x y,
+  build ds = Some r -> bijective_registry table fwd bwd valid r -> a <> b -> valid a x ->
+  direct_transform table fwd bwd r a b x = Some (Some y) ->
+  valid b y /\ direct_transform table fwd bwd r b a y = Some (Some x).
+Proof. intros table fwd bwd valid ds r a b x y B. apply direct_roundtrip_inv. exact (build_inv ds r B). Qed.
+
 (* ---------- boolean checker of the invariant, for concrete (regenerated) registries ---------- *)
 Definition handles_b (d : tdecl) (a b : fw) : bool :=
   (is_fw a (t_fw d) && is_fw b (t_other d)) || (is_fw b (t_fw d) && is_fw a (t_other d)).
